@@ -282,10 +282,11 @@ def tie_replace_range_with(ctx, info, doc, f, t, node, reqs, metas, extra=None):
 
 
 def tie_close_fragment(ctx, info, sl, reqs, metas):
-    """close_fragment(slice.content, 0, slice.open_start, open_depth, None) for every open_depth ≤ open_start, exactly"""
+    """close_fragment(slice.content, 0, slice.open_start, open_depth, None, slice.open_end) — the call replace_range
+    makes — for every open_depth ≤ open_start, exactly"""
     from prosemirror.transform.replace import close_fragment
     for od in range(sl.open_start + 1):
-        st, frag = outcome(lambda: close_fragment(sl.content, 0, sl.open_start, od, None))
+        st, frag = outcome(lambda: close_fragment(sl.content, 0, sl.open_start, od, None, sl.open_end))
         exp = info.frag(frag) if st == "ok" else RAISES
         reqs.append({"op": "closeSlice", "s": info.lean_id, "slice": info.slice(sl), "openDepth": od})
         metas.append(("closeSlice", {"schema": info.name, "slice": sl.to_json(), "open_depth": od}, exp))
